@@ -48,6 +48,35 @@ def run(chk, build):
         terms.append(t)
         meta.append({"key": s, "cu": cu, "snake": snake})
         chk.count(key=("label", s, cu, snake))
+    # X-names(registry): generate_names / fix_name_duplicates on multi-root registries
+    from json_to_models.generator import MetadataGenerator
+    from json_to_models.registry import ModelRegistry
+    from .. import emitcase, gen as genmod, impl
+    gterms, gmeta = [], []
+    for i in range(150 if chk.tier == "quick" else 5000):
+        keys = [names.random_key(r) for _ in range(6)] if r.random() < 0.4 else None
+        g = MetadataGenerator(impl.make_registry())
+        reg = ModelRegistry(*impl.make_cmp(r.choice([None, [("exact",)], [("number", 2)], [("percent", 0.5)]])))
+        rootnames = r.sample(["Root", "Item", "Items", "Value", "User", "A", "Order", "Child", "Name"], r.choice([1, 1, 2, 3]))
+        ss = []
+        try:
+            for rn in rootnames:
+                s = genmod.Gen(r.randrange(10 ** 9), keys=keys).samples(depth=3)
+                ss.append(s)
+                reg.process_meta_data(g.generate(*s), rn)
+            reg.merge_models(g)
+            gterms.append(emitcase.gennames_case(reg))
+            gmeta.append({"roots": [[n, x] for n, x in zip(rootnames, ss)]})
+            chk.count(key=("gennames", repr(rootnames), repr(ss)))
+            nm = [m.name for m in reg.models]
+            if len(set(nm)) != len(nm):
+                chk.fail("oracle", gmeta[-1], f"two models share the class name {[n for n in nm if nm.count(n) > 1][0]!r} after generate_names")
+        except IndexError:
+            continue
+    gdis = []
+    base.run_view(chk, "Vgennames", "X-names(registry)", gterms, gmeta, gdis, shard=50)
+    if gdis and not chk.violations:
+        chk.fail_nowitness("X-names(registry)", {"disagreements": gdis[:5]})
     bad = names.oracle_hypotheses()
     chk.obligation("oracle premises of the label theorems hold for str.lower / re \\w / unidecode over every code point", not bad, "; ".join(bad[:3]))
     if bad:
